@@ -697,4 +697,101 @@ theorem parse_encodePart (hs : SLOT_SKIP_FROM = RECEIVED_BITS) (hg : PACKET_NO_R
 
 end Family
 
+/-! ### the concrete families are encodable, and their encodings are the corpus byte strings -/
+
+theorem goodStr_of_decide {cap : Nat} {s : List UInt8} (h1 : (∀ b ∈ s, b ≠ 0)) (h2 : utf8Valid s = true)
+    (h3 : s.length ≤ cap) : GoodStr cap s := ⟨h1, h2, h3⟩
+
+theorem witnessHdr_headOk_ex : HeadOk .info6Ex (witnessHdr .v6Ex) 0 where
+  ver := rfl
+  token := by decide
+  version := goodStr_of_decide (by decide) (by decide) (by decide)
+  name := goodStr_of_decide (by decide) (by decide) (by decide)
+  map := goodStr_of_decide (by decide) (by decide) (by decide)
+  gameType := goodStr_of_decide (by decide) (by decide) (by decide)
+  flags := by decide
+  hostname := by rw [if_neg (by decide)]; rfl
+  mapInfo := by rw [if_pos (by decide)]; exact ⟨0, 0, rfl, by decide, rfl, by decide⟩
+  progression := by rw [if_neg (by decide)]; rfl
+  skill := by rw [if_neg (by decide)]; rfl
+  counts := ⟨by decide, by decide, by decide, by decide, by decide, fun m hm => by
+    have : (witnessHdr .v6Ex).infoVersion.maxClients = none := by decide
+    rw [this] at hm; cases hm⟩
+  maxClients := by decide
+  plainCounts := fun h => absurd h (by decide)
+  offset := by rw [if_neg (by decide)]
+
+theorem witnessHdr_headOk_legacy (o : Nat) (ho : o < 2 ^ 31) : HeadOk .info664 (witnessHdr .v664) o where
+  ver := rfl
+  token := by decide
+  version := goodStr_of_decide (by decide) (by decide) (by decide)
+  name := goodStr_of_decide (by decide) (by decide) (by decide)
+  map := goodStr_of_decide (by decide) (by decide) (by decide)
+  gameType := goodStr_of_decide (by decide) (by decide) (by decide)
+  flags := by decide
+  hostname := by rw [if_neg (by decide)]; rfl
+  mapInfo := by rw [if_neg (by decide)]; exact ⟨rfl, rfl⟩
+  progression := by rw [if_neg (by decide)]; rfl
+  skill := by rw [if_neg (by decide)]; rfl
+  counts := ⟨by decide, by decide, by decide, by decide, by decide, fun m hm => by
+    have : (witnessHdr .v664).infoVersion.maxClients = some 64 := by decide
+    rw [this] at hm
+    cases hm
+    decide⟩
+  maxClients := by decide
+  plainCounts := fun h => absurd h (by decide)
+  offset := by rw [if_pos (by decide)]; exact ho
+
+theorem clientOk_simple (k : InfoKind) (hk : k.received.version.hasExtendedPlayerInfo = true)
+    (hf : k.received.version.hasFullClientFlags = false) (c : ClientInfo)
+    (h1 : GoodStr CAP_CLIENT_NAME c.name) (h2 : GoodStr CAP_CLIENT_CLAN c.clan) (h3 : inI32 c.country)
+    (h4 : inI32 c.score) (h5 : c.flags = 0 ∨ c.flags = 1) : ClientOk k c where
+  name := h1
+  score := h4
+  ext := fun _ => ⟨h2, h3, by rw [if_neg (by rw [hf]; decide)]; exact h5⟩
+  plain := fun h => by rw [hk] at h; cases h
+
+theorem witnessClients_ok (k : InfoKind) (hk : k.received.version.hasExtendedPlayerInfo = true)
+    (hf : k.received.version.hasFullClientFlags = false) (c : ClientInfo) (hc : c = clientA ∨ c = clientB) :
+    ClientOk k c := by
+  rcases hc with rfl | rfl <;>
+    exact clientOk_simple k hk hf _ (goodStr_of_decide (by decide) (by decide) (by decide))
+      (goodStr_of_decide (by decide) (by decide) (by decide)) (by decide) (by decide) (by decide)
+
+/-- the info of the repository's test `parse_info_v7` -/
+def witnessV7 : ServerInfo :=
+  { infoVersion := .v7, token := 1, version := [116, 119, 111], name := [116, 104, 114, 101, 101], hostname := some [102, 111, 117, 114], map := [102, 105, 118, 101],
+    gameType := [115, 105, 120], flags := 7, skillLevel := some 8, numPlayers := 1, maxPlayers := 2, numClients := 2, maxClients := 3,
+    clients := [{ name := [116, 104, 105, 114, 116, 101, 101, 110], clan := [102, 111, 117, 114, 116, 101, 101, 110], country := 15, score := 16, flags := 17 },
+                { name := [101, 105, 103, 104, 116, 101, 101, 110], clan := [110, 105, 110, 101, 116, 101, 101, 110], country := 20, score := 21, flags := 22 }] }
+
+/-- the payload bytes of that test -/
+def witnessV7Bytes : List UInt8 := [1, 116, 119, 111, 0, 116, 104, 114, 101, 101, 0, 102, 111, 117, 114, 0, 102, 105, 118, 101, 0, 115, 105, 120, 0, 7, 8, 1, 2, 2, 3, 116, 104, 105, 114, 116, 101, 101, 110, 0, 102, 111, 117, 114, 116, 101, 101, 110, 0, 15, 16, 17, 101, 105, 103, 104, 116, 101, 101, 110, 0, 110, 105, 110, 101, 116, 101, 101, 110, 0, 20, 21, 22]
+
+theorem witnessEx_encodable : witnessEx.Encodable where
+  head := fun i _ => witnessHdr_headOk_ex
+  clients := by
+    intro i hi c hc
+    have hi2 : i < 2 := hi
+    have : i = 0 ∨ i = 1 := by omega
+    rcases this with rfl | rfl
+    · exact witnessClients_ok _ (by decide) (by decide) c (Or.inl (by simpa [Family.chunk, witnessEx] using hc))
+    · exact witnessClients_ok _ (by decide) (by decide) c (Or.inr (by simpa [Family.chunk, witnessEx] using hc))
+
+theorem witnessLegacy_encodable : witnessLegacy.Encodable where
+  head := by
+    intro i hi
+    have hi2 : i < 2 := hi
+    have : i = 0 ∨ i = 1 := by omega
+    rcases this with rfl | rfl
+    · exact witnessHdr_headOk_legacy _ (by decide)
+    · exact witnessHdr_headOk_legacy _ (by decide)
+  clients := by
+    intro i hi c hc
+    have hi2 : i < 2 := hi
+    have : i = 0 ∨ i = 1 := by omega
+    rcases this with rfl | rfl
+    · exact witnessClients_ok _ (by decide) (by decide) c (Or.inl (by simpa [Family.chunk, witnessLegacy] using hc))
+    · exact witnessClients_ok _ (by decide) (by decide) c (Or.inr (by simpa [Family.chunk, witnessLegacy] using hc))
+
 end Tw.ServerBrowse
